@@ -83,7 +83,8 @@ def check_frame(ctx, p, vertices, edges, cells, label):
         if len(e) == 2 and len(sep) == 1:
             n_amb += 1
             continue
-        if len(e) == 2 and len(sep) == 2 and set(sep) < set(be.own_cells):
+        if len(e) == 2 and len(sep) == 2 and set(sep) < set(be.own_cells) and \
+                set(be.own_cells) == set(cov.get(e[0], ())) & set(cov.get(e[1], ())):
             # known finding D29: a further cell touches both ends of a one-edge interface (the other side of a cell
             # with only two junctions) and is listed as a third owner
             ctx.known("D29")
@@ -383,6 +384,12 @@ def check_parser(p, ctx):
     tmpdir = tempfile.mkdtemp(prefix="c08_")
     try:
         v, e, c = c09.construct(p, tmpdir)
+    except ForsysCrash as cr:
+        if p["source"] == "raster" and p.get("raw") and cr.kind == "IndexError" and \
+                cr.where == "skeleton.py:create_lattice":
+            ctx.skip("skeleton parser raised on a raw raster (known finding D30, reported under C09)")
+            return
+        raise
     finally:
         shutil.rmtree(tmpdir, ignore_errors=True)
     if p.get("ne"):
